@@ -230,3 +230,48 @@ func initDesignateNotaryRoleAsLeaderTick(ctx, prm)
   loop 2
     invariant 1 <= i
 @*/
+
+/*@
+module nnsinit
+props C13
+dialect go64
+
+// C13 ("NNS has contract ID 1", "running the procedure again deploys nothing"): the NNS stage looks the contract up by
+// ID 1 and nothing else; it returns only the address of a contract found under this ID whose manifest name is
+// NameService; a call that finds the contract at its first look sends no deployment, and a member that is not the
+// deployer never sends one.
+func (x blockchainMonitor) waitForNextBlock(ctx) (err)
+  trusted
+  pure
+  logged
+
+func newTransactionGroupMonitor(w) (r)
+  trusted
+  pure
+
+func (x transactionGroupMonitor) isPending() (r)
+  trusted
+  pure
+
+func (x transactionGroupMonitor) trackPendingTransactionsAsync(ctx, vub, txs)
+  trusted
+  pure
+  logged
+
+func readNNSOnChainState(b) (r, err)
+  logged
+  ensures [C13] xcalls("deploy.Blockchain.GetContractStateByID").len == old(xcalls("deploy.Blockchain.GetContractStateByID")).len + 1
+  ensures [C13] xcalls("deploy.Blockchain.GetContractStateByID")[old(xcalls("deploy.Blockchain.GetContractStateByID")).len] == ev_deploy_Blockchain_GetContractStateByID(1)
+
+func initNNSContract(ctx, prm) (res, err)
+  // a member that is not the deployer never deploys
+  ensures [C13] !prm.tryDeploy ==> xcalls("management.Contract.Deploy").len == old(xcalls("management.Contract.Deploy")).len
+  // a call that finds the contract at its first look deploys nothing (idempotence of the stage)
+  ensures [C13] isnil(cres2("readNNSOnChainState", old(xcalls("readNNSOnChainState")).len)) && !isnil(cres("readNNSOnChainState", old(xcalls("readNNSOnChainState")).len))
+        ==> xcalls("management.Contract.Deploy").len == old(xcalls("management.Contract.Deploy")).len
+  loop 0
+    invariant !prm.tryDeploy ==> xcalls("management.Contract.Deploy").len == old(xcalls("management.Contract.Deploy")).len
+    invariant xcalls("readNNSOnChainState").len >= old(xcalls("readNNSOnChainState")).len
+    invariant xcalls("readNNSOnChainState").len == old(xcalls("readNNSOnChainState")).len ==> xcalls("management.Contract.Deploy").len == old(xcalls("management.Contract.Deploy")).len
+    invariant xcalls("readNNSOnChainState").len > old(xcalls("readNNSOnChainState")).len ==> !(isnil(cres2("readNNSOnChainState", old(xcalls("readNNSOnChainState")).len)) && !isnil(cres("readNNSOnChainState", old(xcalls("readNNSOnChainState")).len)))
+@*/
